@@ -782,6 +782,7 @@ func (g *pgen) genPipeline(idx int, isTop bool) {
 	g.pl = pl
 	g.isTop = isTop
 	g.sources = nil
+	g.forceMerged = nil
 	// a couple of seed inputs so that references have something to find
 	for i := rapid.IntRange(0, 2).Draw(t, "seedIns"); i > 0; i-- {
 		g.newInput(g.genStageType("plIn"), false)
@@ -879,6 +880,12 @@ func (g *pgen) genPipeline(idx int, isTop bool) {
 						}
 					}
 				}
+			}
+		}
+		if g.cfg.Wildcards && !g.chain && rapid.IntRange(0, 7).Draw(t, "wildcardPair") == 0 {
+			if g.genWildcardPair(pl, used) {
+				g.forceMerged = nil
+				continue
 			}
 		}
 		c := &Call{Id: callee, Callee: callee}
@@ -1232,6 +1239,50 @@ func (g *pgen) badSplitFeed(e Expr) bool {
 		return true
 	}
 	return false
+}
+
+// genWildcardPair adds two calls of one stage whose arguments all come from
+// a struct value each ("* = self.w1", "* = self.w2"): a struct with one
+// member per parameter of the stage is declared, and two inputs of that
+// type are added to the pipeline.
+func (g *pgen) genWildcardPair(pl *Pipeline, used map[string]int) bool {
+	var cands []*Stage
+	for _, st := range g.prog.Stages {
+		ok := st.Name != "PF0" && len(st.Ins) >= 1
+		for _, in := range st.Ins {
+			if in.Flag {
+				ok = false
+			}
+		}
+		if ok {
+			cands = append(cands, st)
+		}
+	}
+	if len(cands) == 0 || len(pl.Ins) > 6 {
+		return false
+	}
+	st := cands[rapid.IntRange(0, len(cands)-1).Draw(g.t, "wildcardStage")]
+	sname := "ARGS_" + st.Name
+	if g.u.Struct(sname) == nil {
+		as := &Struct{Name: sname}
+		for _, in := range st.Ins {
+			as.Fields = append(as.Fields, Field{Name: in.Name, T: in.T})
+		}
+		g.u.Structs = append(g.u.Structs, as)
+	}
+	for k := 0; k < 2; k++ {
+		in := g.newInput(Ty{Base: sname}, false)
+		c := &Call{Id: fmt.Sprintf("%s_W%d", st.Name, used[st.Name]), Callee: st.Name}
+		used[st.Name]++
+		for _, p := range st.Ins {
+			c.Bindings = append(c.Bindings, Binding{Param: p.Name, E: Ref{Out: in.ref.Out, Path: []string{p.Name}}})
+		}
+		w := in.ref
+		c.WildcardFrom = &w
+		pl.Calls = append(pl.Calls, c)
+		g.addCallSources(c, "", "", false)
+	}
+	return true
 }
 
 // reachablePipelines: the pipeline and every pipeline it calls, transitively.
